@@ -21,6 +21,8 @@ type HNode struct {
 	vsort *Sort
 	id    int
 	memo  map[int]*Term
+	at    *Term // allocation counter when this version was created (values it introduces are below it)
+	bmemo map[int]*Term
 }
 
 const (
@@ -34,7 +36,7 @@ var hnodeCount int
 
 func newHNode(kind int, vsort *Sort) *HNode {
 	hnodeCount++
-	return &HNode{kind: kind, vsort: vsort, id: hnodeCount, memo: map[int]*Term{}}
+	return &HNode{kind: kind, vsort: vsort, id: hnodeCount, memo: map[int]*Term{}, bmemo: map[int]*Term{}}
 }
 
 // read returns the value of the map at idx in this version; quantifier-free.
@@ -63,6 +65,35 @@ func (h *HNode) read(idx *Term) *Term {
 		r = Ite(h.cond, h.a.read(idx), h.b.read(idx))
 	}
 	h.memo[idx.id] = r
+	return r
+}
+
+// readBound returns an allocation bound B such that every reference contained in read(idx) is below B:
+// the allocation counter of the program point that supplied the value.
+func (h *HNode) readBound(idx *Term, alloc0 *Term) *Term {
+	if t, ok := h.bmemo[idx.id]; ok {
+		return t
+	}
+	var r *Term
+	switch h.kind {
+	case hBase:
+		r = alloc0
+	case hStore:
+		r = Ite(Eq(idx, h.idx), h.at, h.prev.readBound(idx, alloc0))
+	case hHavoc:
+		if h.bound == nil {
+			r = h.at
+		} else {
+			keep := Lt(idx, h.bound)
+			for _, e := range h.excl {
+				keep = And(keep, Neq(idx, e))
+			}
+			r = Ite(keep, h.prev.readBound(idx, alloc0), h.at)
+		}
+	case hMerge:
+		r = Ite(h.cond, h.a.readBound(idx, alloc0), h.b.readBound(idx, alloc0))
+	}
+	h.bmemo[idx.id] = r
 	return r
 }
 
@@ -162,15 +193,17 @@ func (c *Ctx) hwrite(s *State, name string, vsort *Sort, idx, val *Term) {
 	prev := c.heapNode(s, name, vsort)
 	n := newHNode(hStore, vsort)
 	n.prev, n.idx, n.val = prev, idx, val
+	n.at = s.alloc
 	s.heap[name] = n
 }
 
 // hhavoc replaces the map by an unknown one that agrees with the old version on
 // all references below bound, except those in excl.
-func (c *Ctx) hhavoc(s *State, name string, vsort *Sort, bound *Term, excl []*Term, why string) {
+func (c *Ctx) hhavoc(s *State, name string, vsort *Sort, bound *Term, excl []*Term, why string, post *Term) {
 	prev := c.heapNode(s, name, vsort)
 	n := newHNode(hHavoc, vsort)
 	n.prev = prev
+	n.at = post
 	n.sym = Fresh("H."+name+"@"+why, arraySort(SInt, vsort))
 	n.bound = bound
 	n.excl = excl
